@@ -43,7 +43,7 @@ fn alphabet() -> Vec<Op> {
         Op::Write(0), Op::Write(1), Op::Write(3), Op::Write(17),
         Op::Read(0), Op::Read(1), Op::Read(5),
         Op::SeekStart(0), Op::SeekStartLenPlus(3), Op::SeekStart(40), Op::SeekStart(1 << 63), Op::SeekStart(u64::MAX),
-        Op::SeekEnd(-1), Op::SeekEnd(2), Op::SeekEnd(i64::MIN),
+        Op::SeekEnd(0), Op::SeekEnd(-1), Op::SeekEnd(2), Op::SeekEnd(i64::MIN),
         Op::SeekCur(-2), Op::SeekCur(3), Op::SeekCur(i64::MAX),
         Op::SetPos(0), Op::SetPos(20), Op::SetPos(70),
         Op::StreamPos, Op::Flush,
